@@ -52,14 +52,31 @@ def gen_specs(run):
             sp["promises"][j] = str(newp)
             verifies.append({"mode": "VerifyOnly", "vmembers": [{"proof": 0, "stmt": sp, "ctx": mem["ctx"]}], "_expect": "err", "_why": "promise changed"})
         specs.append({"id": f"c02-{i}", "group": "fm", "members": [mem], "derived": derived, "verifies": verifies, "_conf": [b, m, T]})
+    # adversarially structured batches: two cooperating malformed proofs whose defects are equal and opposite on one blinding coordinate
+    for bi in range(3 if quick else 30):
+        b = rng.choice([2, 4])
+        T = 1 + bi % 3
+        n = rng.choice([2, 3])
+        mems = [gen.mk_member(rng, b, rng.choice([1, 2]), T=T) for _ in range(n)]
+        k = rng.randrange(T)
+        d = gen.rscalar(rng)
+        derived = [{"from": 0, "ops": [{"op": "scalar_add", "field": "d1", "idx": k, "hex": gen.hx(d)}]},
+                   {"from": 1, "ops": [{"op": "scalar_add", "field": "d1", "idx": k, "hex": gen.hx(L - d)}]}]
+        vm_h = [gen.vmember(mm, i) for i, mm in enumerate(mems)]
+        vm_a = list(vm_h)
+        vm_a[0] = gen.vmember(mems[0], n)
+        vm_a[1] = gen.vmember(mems[1], n + 1)
+        specs.append({"id": f"c02-batch-{bi}", "group": "fm", "members": mems, "derived": derived,
+                      "verifies": [{"mode": "VerifyOnly", "vmembers": vm_h}, {"mode": "VerifyOnly", "vmembers": vm_a, "_expect": "err", "_why": "cooperating +-delta on d1 in one batch"}],
+                      "_conf": [b, n, T]})
     return specs
 
 
 def oracle(run, s, o):
     b, m, T = s["_conf"]
     mem = o["members"][0]
-    if mem.get("prove") != "ok":
-        run.violation(f"honest prover failed: {mem.get('prove')}", {"kind": "session", "spec": sessions.strip(s)})
+    if any(mo.get("prove") != "ok" for mo in o["members"]):
+        run.violation(f"honest prover failed: {[mo.get('prove') for mo in o['members']]}", {"kind": "session", "spec": sessions.strip(s)})
         return
     for vi, (vs, vo) in enumerate(zip(s["verifies"], o["verifies"])):
         res = vo["result"]
@@ -79,7 +96,7 @@ def oracle(run, s, o):
 def run(run: Run):
     run.run_audit()
     specs = gen_specs(run)
-    sessions.run_sessions(run, specs, oracle, relevant=1 | 4 | 8)
+    sessions.run_sessions(run, specs, oracle, relevant=1 | 4 | 8 | 32)
     return run.finish(
         "proof",
         "honest proofs on the configuration lattice, single-element mutations of them (scalars, points, round structure) and statements shifted "
